@@ -163,33 +163,24 @@ theorem rangeLoop_contains (b : UInt8) (fuel : Nat) (i : UInt8) (s : ByteSet) (c
         rw [UInt8.le_iff_toNat_le, UInt8.lt_iff_toNat_lt]; omega
       rw [and_decide_false this]; simp
 
-/-- what `byteRange` really contains: the half-open interval `[a, b)` plus `b` itself -/
+/-- `byteRange a b` is the closed interval `[a, b]` — empty when `a > b` -/
 theorem contains_byteRange (a b c : UInt8) :
-    (byteRange a b).contains c = ((decide (a ≤ c) && decide (c < b)) || c == b) := by
+    (byteRange a b).contains c = (decide (a ≤ c) && decide (c ≤ b)) := by
   unfold byteRange
   have hb : b.toNat < 256 := b.toNat_lt
-  rw [contains_add, rangeLoop_contains b 256 a empty c (by omega), contains_empty]
-  simp
-
-/-- for an ascending range `byteRange` is the closed interval -/
-theorem contains_byteRange_ascending (a b c : UInt8) (h : a ≤ b) :
-    (byteRange a b).contains c = (decide (a ≤ c) && decide (c ≤ b)) := by
-  rw [contains_byteRange, u8_beq]
   have e1 : (a ≤ c) = (a.toNat ≤ c.toNat) := by rw [UInt8.le_iff_toNat_le]
-  have e2 : (c < b) = (c.toNat < b.toNat) := by rw [UInt8.lt_iff_toNat_lt]
   have e3 : (c ≤ b) = (c.toNat ≤ b.toNat) := by rw [UInt8.le_iff_toNat_le]
-  have h' : a.toNat ≤ b.toNat := UInt8.le_iff_toNat_le.mp h
-  simp only [e1, e2, e3]
-  by_cases x : a.toNat ≤ c.toNat <;> by_cases y : c.toNat < b.toNat <;> by_cases z : c.toNat = b.toNat <;> simp [x, y, z] <;> omega
-
-/-- for a descending range `byteRange a b` is `{b}`, not the empty set (the `[z-a]` defect) -/
-theorem contains_byteRange_descending (a b c : UInt8) (h : b < a) :
-    (byteRange a b).contains c = (c == b) := by
-  rw [contains_byteRange]
-  have e1 : (a ≤ c) = (a.toNat ≤ c.toNat) := by rw [UInt8.le_iff_toNat_le]
-  have e2 : (c < b) = (c.toNat < b.toNat) := by rw [UInt8.lt_iff_toNat_lt]
-  have h' : b.toNat < a.toNat := UInt8.lt_iff_toNat_lt.mp h
-  simp only [e1, e2]
-  by_cases x : a.toNat ≤ c.toNat <;> by_cases y : c.toNat < b.toNat <;> simp [x, y] <;> omega
+  by_cases hgt : a > b
+  · have h' : b.toNat < a.toNat := UInt8.lt_iff_toNat_lt.mp hgt
+    simp only [hgt, if_true, contains_empty, e1, e3]
+    by_cases x : a.toNat ≤ c.toNat <;> by_cases z : c.toNat ≤ b.toNat <;> simp [x, z] <;> omega
+  · have h' : a.toNat ≤ b.toNat := by
+      have : ¬ (b.toNat < a.toNat) := fun h => hgt (UInt8.lt_iff_toNat_lt.mpr h)
+      omega
+    simp only [hgt, if_false]
+    rw [contains_add, rangeLoop_contains b 256 a empty c (by omega), contains_empty, u8_beq]
+    have e2 : (c < b) = (c.toNat < b.toNat) := by rw [UInt8.lt_iff_toNat_lt]
+    simp only [e1, e2, e3, Bool.false_or]
+    by_cases x : a.toNat ≤ c.toNat <;> by_cases y : c.toNat < b.toNat <;> by_cases z : c.toNat = b.toNat <;> simp [x, y, z] <;> omega
 
 end GoluaVerif.Model.ByteSet
